@@ -10,10 +10,14 @@
    state EQUAL, a redundant one changes nothing but the event buffer (3); a redundant new_argument
    is a no-op for both encoders: same tables, no SAT event - what defect D6 violated (4); no later
    query of the complete / stable / preferred solver panics - what D7 violated (5).
-   NOT YET PROVED (see NOTES-dyn.md): that every later ANSWER equals the from-scratch answer for that
-   framework (the functional part shared with C08; the checks compare it on every run against the
-   brute-force oracle); (5) for the assumptions-on-attacks variants and the wrapper. *)
-From Crusta Require Import Model.Dynamic Proofs.DynDefs Proofs.DynProofs Proofs.DynSafe.
+   (6)-(7) below (Proofs/DynFun.v; NOTES-agent-dynfun.md): for the dynamic COMPLETE and STABLE solvers with
+   the standard encoder every later ANSWER is the one the semantics dictate for the framework built by
+   the VALID updates alone: redundant and rejected updates are invisible in all later answers.
+   NOT YET PROVED (see NOTES-dyn.md): the same for the preferred solver and the assumptions-on-attacks
+   variants (the checks compare them on every run against the brute-force oracle); (5) for the
+   assumptions-on-attacks variants and the wrapper. *)
+From Crusta Require Import Model.Dynamic Proofs.SolverBasics Proofs.DynDefs Proofs.DynProofs Proofs.DynSafe
+  Proofs.DynFunDefs Proofs.DynFun Proofs.CompProofs Proofs.SolverWholeEx.
 
 Section C09.
 Variable L : Type.
@@ -82,6 +86,38 @@ Theorem C09_query_never_panics_partial : forall k s os oracle thr fuel q cert l 
   match dyn_query oracle L leqb thr fuel s q cert l ps with Panic _ => False | _ => True end.
 Proof. exact (DynSafe.std_query_never_panics L leqb leqb_spec). Qed.
 
+(* (6) a redundant or rejected update anywhere in a history leaves every later store EQUAL to the one of
+   the history without it ([classify] on the set-level specification state at that moment) ... *)
+Theorem C09_noop_update_invisible : forall os o os',
+  classify L leqb (abs L (run_ops fresh os)) o <> UValid ->
+  run_ops fresh (os ++ o :: os') = run_ops fresh (os ++ os').
+Proof. exact (DynFun.noop_update_invisible L leqb leqb_spec). Qed.
+
+(* (7) ... and all later answers of the complete (DC) and stable (DC, DS) dynamic solver are those of the
+   framework WITHOUT the redundant and rejected updates: [effective fresh os] keeps exactly the updates
+   of the history that were valid at their moment; [vreach] = reachable with the SAT program state
+   threaded and one oracle (Proofs/DynFunDefs.v, see Properties/C08.v); the answer is the status of the
+   argument in the framework built by the valid updates alone, with a certificate exactly when promised
+   (an extension, duplicate-free, of live arguments, containing resp. omitting the argument) - for any
+   valid oracle, computed or served from the cache. *)
+Theorem C09_later_answers_ignore_noop_updates :
+  forall oracle thr k s ps os fuel q cert l s' b c ps',
+  valid_oracle oracle -> vreach L leqb oracle thr k s ps os ->
+  (k = KCo /\ q = QDC) \/ (k = KSt /\ (q = QDC \/ q = QDS)) ->
+  let f := run_ops fresh (effective L leqb fresh os) in
+  forall id, get_argument L leqb f l = Some id ->
+  dyn_query oracle L leqb thr fuel s q cert l ps = Done (s', (b, c)) ps' ->
+  let F := af_of f in
+  let sm := match k with KSt => ST | _ => CO end in
+  let pol := match q with QDC => true | _ => false end in       (* true: credulous, false: skeptical *)
+  (b = true <-> if pol then cred sm F [id] else skep sm F [id]) /\
+  match c with
+  | Some X => cert = true /\ b = pol /\ ext sm F X /\ NoDup X /\ incl X (args F) /\
+              (if pol then In id X else ~ In id X)
+  | None => cert = true -> b = negb pol
+  end.
+Proof. exact (DynFun.dyn_functional_effective L leqb leqb_spec). Qed.
+
 End C09.
 
 (* the hypotheses are satisfiable: a reachable state with a redundant and an invalid update *)
@@ -92,6 +128,26 @@ Proof.
   eapply reach_new with (ps := init_st CadicalLike). reflexivity.
 Qed.
 
+(* the hypotheses of (7) are satisfiable and the query returns: complete solver, brute-force reference
+   oracle, a history with a redundant (+1 again, 1->2 again) and two rejected updates (-7, 2->9): only
+   +1 +2 1->2 are effective, and DC 2 answers NO *)
+Example C09_functional_inhabited :
+  exists s ps s' b c ps',
+    valid_oracle bf_oracle /\
+    vreach nat Nat.eqb bf_oracle 1 KCo s ps
+      ((((((([] ++ [OpNewArg 1]) ++ [OpNewArg 1]) ++ [OpRemArg 7]) ++ [OpNewArg 2]) ++ [OpNewAtt 1 2])
+         ++ [OpNewAtt 1 2]) ++ [OpNewAtt 2 9]) /\
+    effective nat Nat.eqb (fresh_fw nat Nat.eqb)
+      [OpNewArg 1; OpNewArg 1; OpRemArg 7; OpNewArg 2; OpNewAtt 1 2; OpNewAtt 1 2; OpNewAtt 2 9]
+      = [OpNewArg 1; OpNewArg 2; OpNewAtt 1 2] /\
+    dyn_query bf_oracle nat Nat.eqb 1 10 s QDC true 2 ps = Done (s', (b, c)) ps' /\
+    b = false /\ c = None.
+Proof.
+  do 6 eexists. split; [exact bf_oracle_valid|]. split.
+  - do 7 eapply vreach_update. eapply vreach_new with (ps0 := init_st BufferedLike). reflexivity.
+  - split; [vm_compute; reflexivity|]. split; [vm_compute; reflexivity|]. split; reflexivity.
+Qed.
+
 Print Assumptions C09_spec_classes.
 Print Assumptions C09_update_results.
 Print Assumptions C09_rejected_update_leaves_state.
@@ -99,3 +155,5 @@ Print Assumptions C09_redundant_argument_std.
 Print Assumptions C09_redundant_argument_attacks.
 Print Assumptions C09_redundant_argument_replay.
 Print Assumptions C09_query_never_panics_partial.
+Print Assumptions C09_noop_update_invisible.
+Print Assumptions C09_later_answers_ignore_noop_updates.
